@@ -24,7 +24,9 @@ func classOf(t *TypeJ, v *ValJ) string {
 
 type classifier struct{ uintptr, bigFloat, ptrString, ptrNamed, zeroStruct bool }
 
-func isScalarKind(k string) bool { return k == "bool" || k == "string" || isIntKind(k) || isFloatKind(k) }
+func isScalarKind(k string) bool {
+	return k == "bool" || k == "string" || isIntKind(k) || isFloatKind(k)
+}
 
 // emptyValue mirrors reflectx.IsEmptyValue on the universe
 func emptyValue(t *TypeJ, v *ValJ) bool {
